@@ -10,7 +10,7 @@ from lib.tocoq import Nat, term, val
 
 PROP = "C16"
 PROPS_FILE = "props/C16.v"
-GEN: list[str] = []
+GEN: list[str] = ["gen_chunk"]
 CORRESPONDENCES = [
     "chunk:torch.chunk~torch_chunk",
     "chunk:chunk_tensor~model",
@@ -337,7 +337,12 @@ def run_chunk(shape, dim, esize, layout, thresholds=None, content=True):
         if err:
             fails.append(("C16:chunk_tensor:not-a-partition", err + f" pieces={pieces}", T))
         elif content and o != prev:
-            ok, dup, distinct = chunk_roundtrip(t, chunks)
+            try:
+                ok, dup, distinct = chunk_roundtrip(t, chunks)
+            except Exception as e:
+                fails.append(("C16:chunk:roundtrip-unexpected-exception", f"{type(e).__name__}: {str(e)[:200]}", T))
+                prev = o
+                continue
             if not ok:
                 fails.append(("C16:chunk:roundtrip-content-differs", f"pieces={pieces}", T))
             if dup:
@@ -387,6 +392,10 @@ def run_subdivide(offs, sizes, dim, esize, layout, thresholds=None):
         except ZeroDivisionError:
             if total != 0:
                 fails.append(("C16:subdivide_shard:unexpected-exception", "ZeroDivisionError on a non-empty shard", T))
+            obs.append(None)
+            continue
+        except Exception as e:
+            fails.append(("C16:subdivide_shard:unexpected-exception", f"{type(e).__name__}: {str(e)[:200]}", T))
             obs.append(None)
             continue
         pieces = [(list(o), list(s)) for _, o, s in sub]
@@ -455,7 +464,12 @@ def run_tile(shape, esize, out_layout, base, thresholds=None):
             flat = False
         entry = TensorEntry(location="loc", serializer="buffer_protocol", dtype="torch." + dname, shape=list(shape),
                             replicated=False, byte_range=None if base is None else [base, base + size])
-        rrs, fut = TensorIOPreparer.prepare_read(entry, out, buffer_size_limit_bytes=L)
+        try:
+            rrs, fut = TensorIOPreparer.prepare_read(entry, out, buffer_size_limit_bytes=L)
+        except Exception as e:
+            fails.append(("C16:tile:unexpected-exception", f"{type(e).__name__}: {str(e)[:200]}", L))
+            obs.append(None)
+            continue
         o = [[[rr.byte_range[0], rr.byte_range[1], list(rr.buffer_consumer.entry.shape)] for rr in rrs]]
         obs.append(o)
         b0 = base or 0
@@ -481,7 +495,12 @@ def run_tile(shape, esize, out_layout, base, thresholds=None):
         if dup:
             fails.append(("C16:producer-emits-duplicate-nonempty-range", f"prepare_read_tiled {dup}", L))
         if o != prev:
-            run(exec_reads({"loc": obj}, rrs))
+            try:
+                run(exec_reads({"loc": obj}, rrs))
+            except Exception as e:
+                fails.append(("C16:tile:consumer-raised", f"{type(e).__name__}: {str(e)[:200]}", L))
+                prev = o
+                continue
             if fut.obj is not out or not same_tensor(out, src):
                 fails.append(("C16:tile:content-differs", "tensor read through the tiles differs from the stored tensor", L))
         prev = o
@@ -503,11 +522,11 @@ def check_tile(ctx: Ctx, res: Result):
                 fail(res, sig, f"prepare_read_tiled shape={shape} esize={esize} out_layout={out_layout} byte_range base={base} "
                                f"buffer_size_limit_bytes={L}: {what}", dict(params, T=L))
             runs = rle(obs)
-            res.case(dict(params, n_limits=len(obs)), nontrivial=any(len(o[0]) >= 2 for o in obs))
+            res.case(dict(params, n_limits=len(obs)), nontrivial=any(o and len(o[0]) >= 2 for o in obs))
             res.count("tile.flat", flat)
             res.count("tile.base", base)
             for o in obs:
-                res.count("tile.tiles", min(len(o[0]), 6))
+                res.count("tile.tiles", "error" if o is None else min(len(o[0]), 6))
             cases.append((f"({term(shape)}, {term(flat)}, {esize}, {base or 0}, {len(obs)})", val(runs)))
             meta.append(dict(params, flat=flat))
     bad, errs = model_cases("C16_ti", IMP_CHUNK, "obs_tile_sweep", cases, shard=300)
@@ -758,7 +777,12 @@ def run_batch_scenario(symbols, order, delays, limits, rseed, thresholds=None, c
     stage_cases, stage_meta, read_cases, read_meta = collect if collect else ([], [], [], [])
     n_ranged = 0
     for T in (thresholds or range(1, tmax + 1)):
-        bw = observe_batch_write(symbols, order, T, delays)
+        try:
+            bw = observe_batch_write(symbols, order, T, delays)
+        except Exception as e:      # the real planner raised on a valid request list
+            fails.append(("C16:batch_write:unexpected-exception", f"{type(e).__name__}: {str(e)[:200]}", T))
+            obs.append([[], [], [[-9, -9, -9, -9]]])
+            continue
         f = list(bw["fails"])
         obs.append(bw["obs"])
         if bw["obs"] != prev and not f:
@@ -771,7 +795,10 @@ def run_batch_scenario(symbols, order, delays, limits, rseed, thresholds=None, c
                 r.shuffle(idx)
                 return idx
             if not f:
-                n_ranged += read_back(bw, store, limits, rorder, read_cases, read_meta, tag, f)
+                try:
+                    n_ranged += read_back(bw, store, limits, rorder, read_cases, read_meta, tag, f)
+                except Exception as e:
+                    f.append(("C16:roundtrip:unexpected-exception", f"{type(e).__name__}: {str(e)[:200]}"))
         prev = bw["obs"]
         fails += [(sig, what, T) for sig, what in f]
     return obs, fails, n_ranged
@@ -840,7 +867,7 @@ def check_batch(ctx: Ctx, res: Result):
         res.count("batch.n_requests", n)
         for o in obs:
             res.count("batch.slabs", min(len(o[0]), 5))
-            res.count("batch.max_members", min(max([len(s[1][0][1]) for s in o[0]] + [0]), 5))
+            res.count("batch.max_members", min(max([len(s[1][0][1]) for s in o[0] if s[1]] + [0]), 5))
         res.count("batch.ranged_reads", min(n_ranged, 9))
         reqs_in_order = [(i, sym_batchable(symbols[i]), sym_decl_size(symbols[i])) for i in order]
         rq = "[" + "; ".join(f"({i}, {term(b)}, {sz})" for i, b, sz in reqs_in_order) + "]"
@@ -1114,10 +1141,12 @@ def search(ctx: Ctx, broken) -> Result:
     corr = [n.split("correspondence:", 1)[1] for n in names if n.startswith("correspondence:")]
     selected = corr if corr and len(corr) == len(names) else None
     SEARCHING = True
+    wide = Ctx(ctx.prop, "thorough", ctx.seed, widen=max(ctx.widen, 2))   # no coqc here: the exhaustive scope is cheap
     try:
-        return _run(ctx, selected)
+        return _run(wide, selected)
     finally:
         SEARCHING = False
+        wide.cleanup()
 
 
 def replay(ctx: Ctx, data):
